@@ -98,28 +98,35 @@ Proof.
   - destruct (N.eqb_spec k' k); [reflexivity | exact IH].
 Qed.
 
-Lemma kwset_fresh k v acc : ~ In k (map fst acc) -> kwset k v acc = acc ++ [(k, v)].
+Lemma NoDup_snoc {A} (l : list A) x : NoDup l -> ~ In x l -> NoDup (l ++ [x]).
 Proof.
-  induction acc as [|[k' v'] r IH]; cbn; intros H; [reflexivity|].
-  destruct (N.eqb_spec k' k); [exfalso; apply H; left; assumption|].
-  rewrite IH; [reflexivity | intros I; apply H; right; exact I].
+  induction l as [|a l IH]; cbn; intros ND H.
+  - constructor; [intros [] | constructor].
+  - inversion ND as [|? ? Ha ND']; subst. constructor.
+    + intros I. apply in_app_or in I. destruct I as [I|[I|[]]]; [exact (Ha I)|]. subst. apply H. left. reflexivity.
+    + apply IH; [exact ND'|]. intros I. apply H. right. exact I.
 Qed.
 
-Lemma merge_kw_acc kws : forall acc,
-  NoDup (map fst (acc ++ kws)) ->
-  fold_left (fun d kv => kwset (fst kv) (snd kv) d) kws acc = acc ++ kws.
+Lemma build_kw_acc_spec kws : forall acc,
+  NoDup (map fst acc) ->
+  build_kw_acc kws acc = if has_dup (map fst (acc ++ kws)) then None else Some (acc ++ kws).
 Proof.
-  induction kws as [|[k v] r IH]; intros acc H; cbn.
-  - rewrite app_nil_r; reflexivity.
-  - rewrite kwset_fresh.
-    + rewrite IH; rewrite <- app_assoc; [reflexivity | exact H].
-    + rewrite map_app in H. apply NoDup_remove_2 in H. cbn in H.
-      intros I. apply H. apply in_or_app. left. exact I.
+  induction kws as [|[k v] r IH]; intros acc ND; cbn [build_kw_acc].
+  - rewrite app_nil_r. apply has_dup_false in ND. rewrite ND. reflexivity.
+  - destruct (kwmem k acc) eqn:M.
+    + apply kwmem_true in M.
+      destruct (has_dup (map fst (acc ++ (k, v) :: r))) eqn:E; [reflexivity|].
+      apply has_dup_false in E. rewrite map_app in E. cbn in E. apply NoDup_remove_2 in E.
+      exfalso. apply E. apply in_or_app. left. exact M.
+    + apply kwmem_false in M. rewrite IH.
+      * rewrite <- app_assoc. reflexivity.
+      * rewrite map_app. cbn. apply NoDup_snoc; assumption.
 Qed.
 
-(** without a repeated keyword the dict built by the ast.Call handler is the keyword list *)
-Lemma merge_kw_nodup kws : NoDup (map fst kws) -> merge_kw kws = kws.
-Proof. intros H. unfold merge_kw. rewrite merge_kw_acc; [reflexivity | exact H]. Qed.
+(** the dict built by the (patched) ast.Call handler: rejected iff a keyword is repeated *)
+Lemma build_kw_spec kws :
+  build_kw kws = if has_dup (map fst kws) then None else Some kws.
+Proof. unfold build_kw. rewrite build_kw_acc_spec; [reflexivity | constructor]. Qed.
 
 (* ------------------------------------------------------------------------- *)
 (** * slots *)
@@ -477,11 +484,11 @@ Proof.
   destruct (filter (fun kv => negb (slot_mem (fst kv) sl)) kw); [contradiction | reflexivity].
 Qed.
 
-Theorem bind_agrees s c :
-  wf_sig s -> NoDup (map fst (c_kws c)) -> tracer_bind s c = cpython_bind s c.
+Lemma bind_args_agrees s c :
+  wf_sig s -> NoDup (map fst (c_kws c)) -> bind_args s (c_pos c) (c_kws c) = cpython_bind s c.
 Proof.
   intros WF ND. destruct (wf_parts s WF) as (Nar & Nko & Nak & Dis & Dis2).
-  unfold tracer_bind, cpython_bind. rewrite (merge_kw_nodup _ ND).
+  unfold cpython_bind.
   assert (HD : has_dup (map fst (c_kws c)) = false) by (apply has_dup_false; exact ND). rewrite HD.
   unfold bind_args.
   set (kw := c_kws c) in *. set (pos := with_self s (c_pos c)).
@@ -526,76 +533,41 @@ Proof.
       rewrite <- !app_assoc. reflexivity.
 Qed.
 
-(** the exact guard: with a repeated keyword CPython rejects, the tracer binds the merged dict *)
 Lemma cpython_rejects_dup s c : has_dup (map fst (c_kws c)) = true -> cpython_bind s c = None.
 Proof. intros H. unfold cpython_bind. rewrite H. reflexivity. Qed.
 
-Lemma kwset_keys k v d :
-  map fst (kwset k v d) = if nmem k (map fst d) then map fst d else map fst d ++ [k].
+(** ast.Call dict construction + FunctionDefinition.bind_args = the rule of the language
+    reference, for every signature and every call *)
+Theorem bind_agrees s c : wf_sig s -> tracer_bind s c = cpython_bind s c.
 Proof.
-  induction d as [|[k' v'] r IH]; cbn; [reflexivity|].
-  unfold nmem in *; cbn. rewrite (N.eqb_sym k k'). destruct (N.eqb_spec k' k); cbn.
-  - subst. reflexivity.
-  - rewrite IH. destruct (existsb (N.eqb k) (map fst r)); reflexivity.
-Qed.
-
-Lemma merge_kw_keys_nodup kws : NoDup (map fst (merge_kw kws)).
-Proof.
-  unfold merge_kw.
-  assert (G : forall acc, NoDup (map fst acc) ->
-              NoDup (map fst (fold_left (fun d kv => kwset (fst kv) (snd kv) d) kws acc))).
-  { induction kws as [|[k v] r IH]; intros acc H; cbn; [exact H|].
-    apply IH. rewrite kwset_keys. destruct (nmem k (map fst acc)) eqn:M; [exact H|].
-    apply nmem_false in M. clear IH.
-    induction (map fst acc) as [|a l IHl]; cbn.
-    - constructor; [intros []|constructor].
-    - inversion H as [|? ? Ha H']; subst. constructor.
-      + intros I. apply in_app_or in I. destruct I as [I|[I|[]]]; [exact (Ha I)|]. subst. apply M. left. reflexivity.
-      + apply IHl; [exact H'|]. intros I. apply M. right. exact I. }
-  apply G. constructor.
-Qed.
-
-(** in general the tracer binds what CPython would bind for the call with the
-    repeated keywords collapsed (last value, first position) *)
-Theorem bind_characterised s c :
-  wf_sig s -> tracer_bind s c = cpython_bind s (mkCall (c_pos c) (merge_kw (c_kws c))).
-Proof.
-  intros WF. rewrite <- (bind_agrees s (mkCall (c_pos c) (merge_kw (c_kws c))) WF).
-  - unfold tracer_bind; cbn [c_pos c_kws]. rewrite (merge_kw_nodup (merge_kw (c_kws c))); [reflexivity|].
-    apply merge_kw_keys_nodup.
-  - cbn [c_kws]. apply merge_kw_keys_nodup.
+  intros WF. unfold tracer_bind. rewrite build_kw_spec.
+  destruct (has_dup (map fst (c_kws c))) eqn:D.
+  - symmetry. apply cpython_rejects_dup. exact D.
+  - apply bind_args_agrees; [exact WF | apply has_dup_false; exact D].
 Qed.
 
 Local Open Scope N_scope.
 
+(** regression of the repeated-keyword defect: def f(p0, p1=71);  f( **{'p0': 40}, **{'p0': 41}) *)
 Definition sig_dup : sig := mkSig [] [(0, None); (1, Some 71)]%N None [] None None.
 Definition call_dup : call := mkCall [] [(0, 40); (0, 41)]%N.
 
-Lemma wf_sig_dup : wf_sig sig_dup.
-Proof.
-  unfold wf_sig, sig_dup, sig_names; cbn.
-  constructor; [intros [H|[]]; discriminate|]. constructor; [intros []|constructor].
-Qed.
-
-(** def f(p0, p1=71);  f( **{'p0': 40}, **{'p0': 41}) : CPython TypeError, tracer binds p0=41 *)
-Theorem bind_refuted :
-  exists s c, wf_sig s /\ cpython_bind s c = None /\
-              tracer_bind s c = Some [(0, BVal 41); (1, BVal 71)]%N.
-Proof. exists sig_dup, call_dup. split; [exact wf_sig_dup|]. split; vm_compute; reflexivity. Qed.
+Example bind_repeated_keyword_rejected :
+  tracer_bind sig_dup call_dup = None /\ cpython_bind sig_dup call_dup = None.
+Proof. split; vm_compute; reflexivity. Qed.
 
 (** non-vacuity of bind_agrees: upstream fn_j(a=6.321, /, *b, c=None, **d) called fn_j(10, 11, 12, c=13, a=14) *)
 Definition sig_j : sig := mkSig [(0, Some 70)]%N [] (Some 1%N) [(2, Some 80)]%N (Some 3%N) None.
 Definition call_j : call := mkCall [10; 11; 12] [(2, 13); (0, 14)]%N.
 
 Example bind_agrees_nonvacuous :
-  wf_sig sig_j /\ NoDup (map fst (c_kws call_j)) /\
+  wf_sig sig_j /\
   tracer_bind sig_j call_j = Some [(0, BVal 10); (2, BVal 13); (1, BTuple [11; 12]); (3, BDict [(0, 14)])]%N.
 Proof.
   split.
   - unfold wf_sig, sig_j, sig_names; cbn.
     repeat (constructor; [cbn; intuition discriminate|]). constructor.
-  - split; [|vm_compute; reflexivity]. cbn.
-    repeat (constructor; [cbn; intuition discriminate|]). constructor.
+  - vm_compute; reflexivity.
 Qed.
 
 (* ------------------------------------------------------------------------- *)
@@ -630,43 +602,46 @@ Qed.
 (* ------------------------------------------------------------------------- *)
 (** * operator dispatch *)
 
-Theorem dispatch_agrees T l r op rop :
-  l <> r -> binop_priority T l r rop = false ->
-  tracer_binop T l r op rop = cpython_binop T l r op rop.
+Lemma reflected_first_priority T l r rop : reflected_first T l r rop = binop_priority T l r rop.
 Proof.
-  intros Hne Hp. unfold tracer_binop, cpython_binop. rewrite Hp.
-  destruct (N.eqb_spec l r); [contradiction | reflexivity].
+  unfold reflected_first, binop_priority, proper_subclass, rop_overloaded, has_attr, same_attr.
+  rewrite (N.eqb_sym r l).
+  destruct (N.eqb l r); cbn [negb andb]; [reflexivity|].
+  destruct (is_subclass_f T (S (length T)) r l); cbn [andb]; [|reflexivity].
+  destruct (lookup T r rop) as [[dr mr]|]; cbn [andb]; [|reflexivity].
+  destruct (lookup T l rop) as [[dl ml]|]; cbn [negb orb]; [|reflexivity].
+  rewrite (N.eqb_sym dr dl). reflexivity.
 Qed.
 
-(** same-type operands: equal as long as the forward method produces a value *)
-Theorem dispatch_same_type T l op rop :
-  try_call (lookup T l op) op l <> None ->
-  tracer_binop T l l op rop = cpython_binop T l l op rop.
+(** the patched tracer dispatches binary operators exactly like CPython - all class tables, all operands *)
+Theorem dispatch_agrees T l r op rop : tracer_binop T l r op rop = cpython_binop T l r op rop.
 Proof.
-  intros H. unfold tracer_binop, cpython_binop. rewrite N.eqb_refl.
-  destruct (try_call (lookup T l op) op l); [reflexivity | contradiction].
+  unfold tracer_binop, cpython_binop. rewrite reflected_first_priority.
+  destruct (N.eqb_spec l r) as [E|E].
+  - subst r. unfold binop_priority, proper_subclass. rewrite N.eqb_refl. cbn [negb andb first_call].
+    destruct (try_call (lookup T l op) op l); reflexivity.
+  - destruct (binop_priority T l r rop); cbn [first_call].
+    + destruct (try_call (lookup T r rop) rop l); [reflexivity|].
+      destruct (try_call (lookup T l op) op r); reflexivity.
+    + destruct (try_call (lookup T l op) op r); [reflexivity|].
+      destruct (try_call (lookup T r rop) rop l); reflexivity.
 Qed.
 
-(** class C0: __add__ ; class C1(C0): __radd__ ;  C0() + C1() *)
+(** regressions of the three dispatch defects *)
 Definition T_prio : ctable := [mkC None [mkM 0 []]; mkC (Some 0%N) [mkM 1 []]]%N.
 
-Theorem dispatch_refuted :
-  exists T l r op rop, l <> r /\
-    tracer_binop T l r op rop = DCall 0 0 /\ cpython_binop T l r op rop = DCall 1 1.
-Proof. exists T_prio, 0%N, 1%N, 0%N, 1%N. split; [discriminate|]. split; vm_compute; reflexivity. Qed.
+Example dispatch_subclass_priority :
+  tracer_binop T_prio 0 1 0 1 = DCall 1 1 /\ cpython_binop T_prio 0 1 0 1 = DCall 1 1.
+Proof. split; vm_compute; reflexivity. Qed.
 
-(** class C0: __radd__ only ;  C0() + C0() : CPython TypeError, the tracer calls __radd__ *)
-Theorem dispatch_same_type_refuted :
-  exists T l op rop, tracer_binop T l l op rop = DCall 0 1 /\ cpython_binop T l l op rop = DReject.
-Proof. exists [mkC None [mkM 1%N []]], 0%N, 0%N, 1%N. split; vm_compute; reflexivity. Qed.
+Example dispatch_same_type_no_reflected :
+  tracer_binop [mkC None [mkM 1 []]] 0 0 0 1 = DReject /\ cpython_binop [mkC None [mkM 1 []]] 0 0 0 1 = DReject.
+Proof. split; vm_compute; reflexivity. Qed.
 
-(** non-vacuity: unrelated classes, forward method answers NotImplemented, reflected one is used *)
-Example dispatch_agrees_nonvacuous :
-  exists T l r op rop, l <> r /\ binop_priority T l r rop = false /\ tracer_binop T l r op rop = DCall 1 1.
-Proof.
-  exists [mkC None [mkM 0 [1]]; mkC None [mkM 1 []]]%N, 0%N, 1%N, 0%N, 1%N.
-  split; [discriminate|]. split; vm_compute; reflexivity.
-Qed.
+(** unrelated classes, forward method answers NotImplemented, reflected one is used *)
+Example dispatch_reflected_fallback :
+  tracer_binop [mkC None [mkM 0 [1]]; mkC None [mkM 1 []]] 0 1 0 1 = DCall 1 1.
+Proof. vm_compute; reflexivity. Qed.
 
 Lemma try_call_shape lk m o : try_call lk m o = None \/ exists d, try_call lk m o = Some (DCall d m).
 Proof.
@@ -674,37 +649,58 @@ Proof.
   destruct (nmem o (m_ni md)); [left; reflexivity | right; exists d; reflexivity].
 Qed.
 
+Lemma compare_attempt_value T is_eq c m o x :
+  compare_attempt T is_eq (c, m, o) = CValue x -> try_call (lookup T c m) m o = Some x.
+Proof.
+  unfold compare_attempt, try_call. destruct (lookup T c m) as [[d md]|].
+  - destruct (nmem o (m_ni md)); [discriminate|]. intros H; inversion H; reflexivity.
+  - destruct is_eq; discriminate.
+Qed.
+
+Lemma compare_attempt_notimpl T is_eq c m o :
+  compare_attempt T is_eq (c, m, o) = CNotImpl -> try_call (lookup T c m) m o = None.
+Proof.
+  unfold compare_attempt, try_call. destruct (lookup T c m) as [[d md]|]; [|reflexivity].
+  destruct (nmem o (m_ni md)); [reflexivity | discriminate].
+Qed.
+
+(** comparisons: the patched tracer yields CPython's result or rejects - all class tables, all operands
+    (it rejects where CPython falls back to identity for ==, and where a consulted class inherits the
+    ordering method from object) *)
 Theorem compare_agrees T l r op rop is_eq :
-  proper_subclass T r l = false ->
   tracer_compare T l r op rop is_eq = DReject \/
   tracer_compare T l r op rop is_eq = cpython_compare T l r op rop is_eq.
 Proof.
-  intros H. unfold cpython_compare, tracer_compare. rewrite H.
-  destruct (lookup T l op) as [[d md]|] eqn:L.
-  - destruct (try_call_shape (Some (d, md)) op r) as [E|[d1 E]]; rewrite E; cbn [or_else or_reject].
-    + destruct (try_call_shape (lookup T r rop) rop l) as [E'|[d' E']]; rewrite E'; cbn [or_reject];
-        [left | right]; reflexivity.
-    + right; reflexivity.
-  - destruct is_eq; [|left; reflexivity]. cbn [try_call or_else].
-    destruct (try_call_shape (lookup T r rop) rop l) as [E'|[d' E']]; rewrite E'; cbn [or_reject];
-      [left | right]; reflexivity.
+  unfold tracer_compare, cpython_compare.
+  destruct (proper_subclass T r l).
+  - destruct (compare_attempt T is_eq (r, rop, l)) as [| |x] eqn:A0; [left; reflexivity | |].
+    + rewrite (compare_attempt_notimpl _ _ _ _ _ A0). cbn [or_else].
+      destruct (compare_attempt T is_eq (l, op, r)) as [| |y] eqn:A1; [left; reflexivity | left; reflexivity |].
+      rewrite (compare_attempt_value _ _ _ _ _ _ A1). right; reflexivity.
+    + rewrite (compare_attempt_value _ _ _ _ _ _ A0). right; reflexivity.
+  - destruct (compare_attempt T is_eq (l, op, r)) as [| |x] eqn:A0; [left; reflexivity | |].
+    + rewrite (compare_attempt_notimpl _ _ _ _ _ A0). cbn [or_else].
+      destruct (compare_attempt T is_eq (r, rop, l)) as [| |y] eqn:A1; [left; reflexivity | left; reflexivity |].
+      rewrite (compare_attempt_value _ _ _ _ _ _ A1). right; reflexivity.
+    + rewrite (compare_attempt_value _ _ _ _ _ _ A0). right; reflexivity.
 Qed.
 
-(** class C0: __lt__ ; class C1(C0): __gt__ ;  C0() < C1() *)
-Theorem compare_refuted :
-  exists T l r op rop,
-    tracer_compare T l r op rop false = DCall 0 4 /\ cpython_compare T l r op rop false = DCall 1 5.
+(** whenever the tracer produces a value, it is CPython's value *)
+Theorem compare_agrees_value T l r op rop is_eq x :
+  tracer_compare T l r op rop is_eq = x -> x <> DReject -> cpython_compare T l r op rop is_eq = x.
 Proof.
-  exists [mkC None [mkM 4 []]; mkC (Some 0) [mkM 5 []]]%N, 0%N, 1%N, 4%N, 5%N.
-  split; vm_compute; reflexivity.
+  intros H Hx. destruct (compare_agrees T l r op rop is_eq) as [E|E]; congruence.
 Qed.
 
-Example compare_agrees_nonvacuous :
-  exists T l r op rop, proper_subclass T r l = false /\ tracer_compare T l r op rop false = DCall 1 5.
-Proof.
-  exists [mkC None [mkM 4 [1]]; mkC None [mkM 5 []]]%N, 0%N, 1%N, 4%N, 5%N.
-  split; vm_compute; reflexivity.
-Qed.
+(** class C0: __lt__ ; class C1(C0): __gt__ ;  C0() < C1() : regression of the comparison defect *)
+Example compare_subclass_priority :
+  tracer_compare [mkC None [mkM 4 []]; mkC (Some 0) [mkM 5 []]] 0 1 4 5 false = DCall 1 5 /\
+  cpython_compare [mkC None [mkM 4 []]; mkC (Some 0) [mkM 5 []]] 0 1 4 5 false = DCall 1 5.
+Proof. split; vm_compute; reflexivity. Qed.
+
+Example compare_reflected_fallback :
+  tracer_compare [mkC None [mkM 4 [1]]; mkC None [mkM 5 []]] 0 1 4 5 false = DCall 1 5.
+Proof. vm_compute; reflexivity. Qed.
 
 (* ------------------------------------------------------------------------- *)
 (** * and / or / not *)
